@@ -163,6 +163,31 @@ pub fn c12(ctx: &mut Ctx, acc: &mut Acc) -> i32 {
     if k % ctx.shards == ctx.shard {
         byte_family(ctx, acc);
     }
+    k += 1;
+    // counts that need the fifth varint byte: 2^30 and 2^31 - 1 zero-width elements (release build of the thorough tier only:
+    // a billion iterations)
+    if ctx.thorough() && !cfg!(debug_assertions) && k % ctx.shards == ctx.shard {
+        for n in [1usize << 30, i32::MAX as usize] {
+            let v: Vec<()> = vec![(); n];
+            let a = ser(&v);
+            let b = ser(&&v[..]);
+            let want = refmodel::enc::vi_bytes(n as i32);
+            acc.case(Some(n as u64));
+            let decoded = match &a {
+                Call::Ok(bytes) => monitored(None, || desert::deserialize::<Vec<()>>(bytes).map(|x| x.len()).map_err(|e| classify(&e))).0,
+                other => Call::Err(ErrClass { variant: "encode", payload: other.class() }),
+            };
+            let ok = matches!(&a, Call::Ok(x) if *x == want) && matches!(&b, Call::Ok(x) if *x == want) && matches!(&decoded, Call::Ok(len) if *len == n);
+            if ok {
+                acc.count("five_byte_count_sequences_ok");
+            } else {
+                acc.violation(
+                    format!("C12|()|huge_count|{}", a.class()),
+                    J::obj().with("check", J::s("C12")).with("mode", J::s("container_matrix")).with("elements", J::u(n as u64)).with("vec", J::s(a.class())).with("slice", J::s(b.class())).with("decoded", J::s(decoded.class())),
+                );
+            }
+        }
+    }
     0
 }
 
